@@ -9,20 +9,23 @@ ES = "src/jaqalpaq/core/algorithm/expand_subcircuits.py"
 
 VARIANTS = [
     fire("c10-expand-let-flag-ignored",
-         [(PA, "    elif expand_let:\n        circuit = fill_in_let(circuit, override_dict=override_dict)\n", "")],
+         [(PA, "    if expand_let_map or expand_let:\n        circuit = fill_in_let(circuit, override_dict=override_dict)\n", "    if expand_let_map:\n        circuit = fill_in_let(circuit, override_dict=override_dict)\n")],
          ("C10.1", "flag:fill_in_let"), P),
     fire("c10-override-not-forwarded",
-         [(PA, "        circuit = fill_in_let(circuit, override_dict=override_dict)\n        circuit = fill_in_map(circuit)", "        circuit = fill_in_let(circuit)\n        circuit = fill_in_map(circuit)")],
+         [(PA, "    if expand_let_map or expand_let:\n        circuit = fill_in_let(circuit, override_dict=override_dict)\n", "    if expand_let_map or expand_let:\n        circuit = fill_in_let(circuit)\n")],
          ("C10.1", "flag:fill_in_let"), P),
     fire("c10-map-before-let",
-         [(PA, "        circuit = fill_in_let(circuit, override_dict=override_dict)\n        circuit = fill_in_map(circuit)", "        circuit = fill_in_map(circuit)\n        circuit = fill_in_let(circuit, override_dict=override_dict)")],
+         [(PA, "    if expand_let_map or expand_let:\n        circuit = fill_in_let(circuit, override_dict=override_dict)\n", ""), (PA, "    if expand_let_map:\n        circuit = fill_in_map(circuit)\n", "    if expand_let_map:\n        circuit = fill_in_map(circuit)\n    if expand_let_map or expand_let:\n        circuit = fill_in_let(circuit, override_dict=override_dict)\n")],
          ("C10.1", "order:let-before-map"), P),
     fire("c10-macros-always-expanded",
-         [(PA, "    if expand_macro:\n        # preserve_definitions maintains old API behavior\n        circuit = expand_macros(circuit, preserve_definitions=True)", "    circuit = expand_macros(circuit, preserve_definitions=True)")],
+         [(PA, "    if expand_macro:\n        # preserve_definitions maintains old API behavior\n        circuit = expand_macros(circuit, preserve_definitions=True)\n", "    circuit = expand_macros(circuit, preserve_definitions=True)\n")],
          ("C10.1", "flag:expand_macros"), P),
     fire("c10-result-discarded",
-         [(PA, "        circuit = fill_in_let(circuit, override_dict=override_dict)\n        circuit = fill_in_map(circuit)", "        circuit = fill_in_let(circuit, override_dict=override_dict)\n        fill_in_map(circuit)")],
+         [(PA, "    if expand_let_map:\n        circuit = fill_in_map(circuit)\n", "    if expand_let_map:\n        fill_in_map(circuit)\n")],
          ("C10.1", "flag:fill_in_map"), P),
+    fire("c10-map-under-expand-let",
+         [(PA, "    if expand_let_map:\n        circuit = fill_in_map(circuit)\n", "    if expand_let_map or expand_let:\n        circuit = fill_in_map(circuit)\n")],
+         ("C10.1", "order:let-before-map"), P),
     fire("c10-replacer-no-splice",
          [(EM, "        new_statements = []\n        for stmt in block.statements:\n            new_stmt = self.visit(stmt)\n            if (\n                isinstance(new_stmt, BlockStatement)\n                and new_stmt.parallel == block.parallel\n                and not new_stmt.subcircuit\n            ):\n                new_statements.extend(new_stmt.statements)\n            else:\n                new_statements.append(new_stmt)\n",
            "        new_statements = [self.visit(stmt) for stmt in block.statements]\n", 1)],
@@ -37,8 +40,7 @@ VARIANTS = [
          [(FM, "            *circuit.registers.values(),\n", "")],
          ("C10.4", "Circuit.registers"), P),
     silent("c10-flags-early-return",
-           [(PA, "    if expand_let_map:\n        circuit = fill_in_let(circuit, override_dict=override_dict)\n        circuit = fill_in_map(circuit)\n    elif expand_let:\n        circuit = fill_in_let(circuit, override_dict=override_dict)\n",
-             "    if expand_let_map or expand_let:\n        circuit = fill_in_let(circuit, override_dict=override_dict)\n        if expand_let_map:\n            circuit = fill_in_map(circuit)\n")], P),
+           [(PA, "    if expand_let_map or expand_let:\n        circuit = fill_in_let(circuit, override_dict=override_dict)\n", "    if expand_let_map:\n        circuit = fill_in_let(circuit, override_dict=override_dict)\n    elif expand_let:\n        circuit = fill_in_let(circuit, override_dict=override_dict)\n")], P),
     # the open finding C10.5 repaired: the replacement block is spliced -> no report at all
     silent("c10-subcircuit-replacement-spliced",
            [(ES, "        statements = [self.visit(stmt) for stmt in block.statements]\n        return BlockStatement(parallel=block.parallel, statements=statements)",
@@ -54,4 +56,17 @@ VARIANTS += [
     fire("c10-override-ignored-without-flag",
          [(PA, "        if not (expand_let or expand_let_map):\n            raise JaqalError(\n                \"override_dict only takes effect with expand_let or expand_let_map\"\n            )\n", "")],
          ("C10.1", "parse_jaqal_string:override-never-ignored"), P),
+]
+VARIANTS += [
+    # reverting fix 1e6ba31 (macros before lets)
+    fire("c10-macros-before-lets",
+         [(PA, "    if expand_let_map or expand_let:\n        circuit = fill_in_let(circuit, override_dict=override_dict)\n", ""),
+          (PA, "        circuit = expand_macros(circuit, preserve_definitions=True)\n", "        circuit = expand_macros(circuit, preserve_definitions=True)\n    if expand_let_map or expand_let:\n        circuit = fill_in_let(circuit, override_dict=override_dict)\n")],
+         ("C10.1", "order:let-before-map"), P),
+]
+VARIANTS += [
+    # reverting the macro-call exemption
+    fire("c10-mapfiller-refuses-alias-argument-of-macro-call",
+         [(FM, "        if isinstance(gate.gate_def, Macro) and isinstance(param, Register):\n            return param\n", "")],
+         ("C10.13", "MapFiller.visit_GateStatement:macro-call-arguments-exempt"), P),
 ]
